@@ -121,7 +121,10 @@ class OptionsCheck:
             "library route: keywords of the creator class the CLI would pick "
             "(TorrentFile for version 1, TorrentAssembler otherwise), integer "
             "piece length; config route: [config] section with the long "
-            "option names, multi-line values for list options",
+            "option names, in two styles: A = multi-line values for list "
+            "options and only the switched-on booleans; B = single-line value "
+            "for one-element lists, `private = True`, explicit `private = "
+            "false` / `align = false` for switched-off booleans",
             "one two-file payload; values per option from a small alphabet",
             "CLI orders: every permutation and every content-path position "
             "for subsets of <= 3 flags; canonical, reversed and rotated "
@@ -153,7 +156,7 @@ class OptionsCheck:
 
     # routes -----------------------------------------------------------
     def run_route(self, route, opts, version, align, outform, root, sandbox,
-                  argv_override=None):
+                  argv_override=None, style="A"):
         n = len(os.listdir(sandbox))
         outdir = os.path.join(sandbox, f"out{n}")
         os.mkdir(outdir)
@@ -199,17 +202,25 @@ class OptionsCheck:
                 lines = ["[config]"]
                 for o, v in opts.items():
                     if v is None:
+                        if style == "B" and o == "private":
+                            lines.append("private = false")
                         continue
                     if o in LISTY:
-                        lines.append(f"{o} =")
-                        lines += ["    " + x for x in v]
+                        if style == "B" and len(v) == 1:
+                            lines.append(f"{o} = {v[0]}")
+                        else:
+                            lines.append(f"{o} =")
+                            lines += ["    " + x for x in v]
                     elif o == "private":
-                        lines.append("private = true")
+                        lines.append("private = true" if style == "A"
+                                     else "private = True")
                     else:
                         lines.append(f"{o} = {v}")
                 lines.append(f"meta-version = {version}")
                 if align:
                     lines.append("align = true")
+                elif style == "B":
+                    lines.append("align = false")
                 lines.append(f"out = {outarg}")
                 with open(cfg, "w") as f:
                     f.write("\n".join(lines) + "\n")
@@ -266,9 +277,10 @@ class OptionsCheck:
                 continue
             check = expected_fields(opts, version, align)
             outs = {}
-            for route in ("kw", "cli", "config"):
-                outs[route] = self.run_route(route, opts, version, align,
-                                             outform, root, sandbox)
+            for route in ("kw", "cli", "config", "config-B"):
+                outs[route] = self.run_route(
+                    route.split("-")[0], opts, version, align, outform, root,
+                    sandbox, style="B" if route.endswith("-B") else "A")
                 res.transitions += 1
                 res.evals += 1
             res.states += 1
@@ -292,7 +304,7 @@ class OptionsCheck:
                                   dict(case, route=route), optnames)
                 res.outcomes["ok" if not probs else probs[0]] += 1
             if "kw" in metas:
-                for route in ("cli", "config"):
+                for route in ("cli", "config", "config-B"):
                     if route in metas and metas[route] != metas["kw"]:
                         diff = sorted(
                             k.decode() for k in set(metas[route]) | set(
@@ -341,12 +353,15 @@ class OptionsCheck:
         st0, raw0 = self.run_route("kw", opts, version, align, outform, root,
                                    sandbox)
         route = case["route"]
+        style = "A"
+        if route == "config-B":
+            route, style = "config", "B"
         argv = None
         if route == "cli-order":
             argv = [a if a != "<PATH>" else root for a in case["argv"]]
             route = "cli"
         st, raw = self.run_route(route, opts, version, align, outform, root,
-                                 sandbox, argv_override=argv)
+                                 sandbox, argv_override=argv, style=style)
         if st != "ok":
             return [{"sig": f"C20|{route}|{st}", "detail": raw}]
         m = normalise(raw)
